@@ -5,6 +5,8 @@ Split data card into its name, type and the rest parameters.
 
 import re
 
+from .utils import to_float
+
 re_data = re.compile(r'^\s*(\**[a-zA-Z]+[^0-9]*)([0-9]*)(\*?)(.*)$')
 
 def split(txt):
@@ -89,7 +91,7 @@ def expand_data_card(tokens, *, expected=None, dtype='float'):
         elif last_char == 'm':
             if len(token) == 1:
                 raise ValueError('"m" data specifier requires a multiplier')
-            factor = float(token[:-1])
+            factor = to_float(token[:-1])
             result.append(result[-1] * factor)
         elif last_char == 'j':
             n_reps = int(token[:-1]) if len(token) > 1 else 1
@@ -98,7 +100,7 @@ def expand_data_card(tokens, *, expected=None, dtype='float'):
             result.extend(logspace(result[-1], tokens.pop(), token))
             consumed += 1
         else:
-            result.append(float(token))
+            result.append(to_float(token))
     if expected is not None and len(result) != expected:
         raise ValueError('expected exactly {:d} items in data card, found {:d}'
                          .format(expected, len(result)))
@@ -113,8 +115,8 @@ def linspace(lower_token, upper_token, n_vals_token):
     parsing `lower_token`, `upper_token` and `n_vals_token`, that must be
     strings.
     '''
-    upper = float(upper_token)
-    lower = float(lower_token)
+    upper = to_float(upper_token)
+    lower = to_float(lower_token)
     n_vals = int(n_vals_token[:-1]) if len(n_vals_token) > 1 else 1
     step = (upper - lower) / (n_vals + 1)
     yield from (float(lower+i*step) for i in range(1, n_vals+1))
@@ -129,8 +131,8 @@ def logspace(lower_token, upper_token, n_vals_token):
     parsing `lower_token`, `upper_token` and `n_vals_token`, that must be
     strings.
     '''
-    upper = float(upper_token)
-    lower = float(lower_token)
+    upper = to_float(upper_token)
+    lower = to_float(lower_token)
     if len(n_vals_token) >= 4 and n_vals_token[-4] == 'i':
         n_vals = int(n_vals_token[:-4]) if len(n_vals_token) > 4 else 1.0
     else:
